@@ -1,5 +1,438 @@
-import CachedModel
+/-
+  C12  Every acknowledgement resolves exactly once to the command's real outcome.
+
+  All statements are about `CachedModel/Ack.lean` (`Cached.AckB`), the small-step slice of
+  src/cache/command/acknowledgement.rs: the completing worker's three accesses (`setStatus`, `setFlag`,
+  `wake`) interleaved with the accesses of any number of polling tasks (`lockRegister p w`, `loadFlag p`,
+  `finishPoll p`).
+  Quantifiers: every outcome `final`, every number of pollers `n`, EVERY schedule (list of actions) —
+  hence every interleaving, any number of polls per task, arbitrary waker changes between polls.
+  `Reachable final n s` (Lemmas/Ack.lean) is `∃ acts, run (init final n) acts = some s`.
+  The inductive invariant `Inv` and its preservation proof are in Lemmas/Ack.lean.
+-/
+import CachedProofs.Lemmas.Ack
 
 namespace Cached
+namespace AckB
 
+/-- the definitions the statements below are phrased with, restated so that they can be read here -/
+theorem Reachable_def (final : Status) (n : Nat) (s : St) :
+    Reachable final n s ↔ ∃ acts, run (init final n) acts = some s := Iff.rfl
+
+theorem lastRegistered_nil : lastRegistered [] = none := rfl
+
+theorem lastRegistered_append_register (pre post : List Act) (p w : Nat)
+    (hpost : ∀ a ∈ post, ∀ p' w', a ≠ .lockRegister p' w') :
+    lastRegistered (pre ++ .lockRegister p w :: post) = some w := by
+  have hp : lastRegistered post = none := by
+    induction post with
+    | nil => rfl
+    | cons a rest ih =>
+      have h1 := ih (fun a ha => hpost a (List.mem_cons_of_mem _ ha))
+      have h2 := hpost a List.mem_cons_self
+      cases a <;> first | (simp only [lastRegistered, h1]; done) | exact absurd rfl (h2 _ _)
+  induction pre with
+  | nil => simp [lastRegistered, hp]
+  | cons a rest ih => simp [lastRegistered, ih]
+
+/-- The inductive invariant (`Inv`, Lemmas/Ack.lean: holds initially, preserved by every enabled step)
+    holds in every reachable state; the recorded outcome and the number of pollers never change. -/
+theorem C12_invariant {final : Status} {n : Nat} {s : St} (hr : Reachable final n s) :
+    Inv s ∧ s.final = final ∧ s.pollers.length = n := hr.inv
+
+/-- Mutual exclusion on the waker slot: the lock is `some p` exactly when poller `p` is inside a poll,
+    and then every other poller is between polls. -/
+theorem C12_mutex {final : Status} {n : Nat} {s : St} (hr : Reachable final n s) (p : Nat) :
+    (s.lock = some p ↔ ∃ q, s.pollers[p]? = some q ∧ (q.pc = .registered ∨ q.pc = .sawDone)) ∧
+    (s.lock = some p → ∀ (j : Nat) (q : Poller), j ≠ p → s.pollers[j]? = some q → q.pc = .idle) := by
+  obtain ⟨inv, -, -⟩ := hr.inv
+  refine ⟨inv.lock_iff p, fun hl j q hj hq => inv.others_idle j q hq ?_⟩
+  rw [hl]
+  intro h
+  exact hj (Option.some.inj h).symm
+
+/-! ### 1. the real outcome, never a stale `Pending` status -/
+
+/-- Every poll result ever returned is `Pending` or `Ready(final)`. -/
+theorem C12_real_outcome {final : Status} {n : Nat} {s : St} (hr : Reachable final n s) :
+    ∀ q ∈ s.pollers, ∀ r ∈ q.results, r = .pending ∨ r = .ready final := by
+  obtain ⟨inv, hf, -⟩ := hr.inv
+  intro q hq r hres
+  obtain ⟨p, hp⟩ := List.mem_iff_getElem?.mp hq
+  cases r with
+  | pending => exact Or.inl rfl
+  | ready x => right; rw [(inv.ready_final p q x hp hres).1, hf]
+
+/-- No poll ever resolves to `Ready(Pending)` (unless the command's outcome itself were `Pending`,
+    which `done` is never called with). -/
+theorem C12_no_pending {final : Status} {n : Nat} {s : St} (hr : Reachable final n s)
+    (hfin : final ≠ .pending) : ∀ q ∈ s.pollers, ∀ r ∈ q.results, r ≠ .ready .pending := by
+  intro q hq r hres heq
+  rcases C12_real_outcome hr q hq r hres with h | h
+  · rw [h] at heq; cases heq
+  · rw [h] at heq; cases heq; exact hfin rfl
+
+/-! ### 2. stability: after the first `Ready(s)`, every later poll returns `Ready(s)` -/
+
+/-- A `Ready(x)` was returned only after the flag was published, and `x` is the real outcome. -/
+theorem C12_ready_implies_flag {final : Status} {n : Nat} {s : St} {q : Poller} {x : Status}
+    (hr : Reachable final n s) (hq : q ∈ s.pollers) (hres : .ready x ∈ q.results) :
+    s.flag = true ∧ x = final := by
+  obtain ⟨inv, hf, -⟩ := hr.inv
+  obtain ⟨p, hp⟩ := List.mem_iff_getElem?.mp hq
+  obtain ⟨h1, h2⟩ := inv.ready_final p q x hp hres
+  exact ⟨h2, by rw [h1, hf]⟩
+
+/-- The flag is never unset. -/
+theorem C12_flag_monotone {s s' : St} {a : Act}
+    (hflag : s.flag = true) (hs : step s a = some s') : s'.flag = true := by
+  rcases step_cases hs with ⟨-, -, rfl⟩ | ⟨-, -, rfl⟩ | ⟨-, -, -, rfl⟩ | ⟨p, w, q, -, -, -, -, rfl⟩ |
+    ⟨p, q, -, -, -, -, rfl⟩ | ⟨p, q, -, -, -, -, rfl⟩ | ⟨p, q, -, -, -, rfl⟩ <;> first | exact hflag | rfl
+
+/-- Once the flag is published, every poll that completes yields `Ready(final)`; no other result is
+    ever appended. -/
+theorem C12_stable {final : Status} {n : Nat} {s s' : St} {a : Act}
+    (hr : Reachable final n s) (hflag : s.flag = true) (hs : step s a = some s') :
+    ∀ (p : Nat) (q q' : Poller), s.pollers[p]? = some q → s'.pollers[p]? = some q' →
+      q'.results = q.results ∨ q'.results = .ready final :: q.results := by
+  obtain ⟨inv, hf, -⟩ := hr.inv
+  intro p q q' hq hq'
+  rcases step_results hs hq hq' with h | ⟨-, hff, -, -⟩ | ⟨-, -, h⟩
+  · exact Or.inl h
+  · rw [hflag] at hff; cases hff
+  · right
+    have hc : s.cpc ≠ .beforeStatus := by
+      rcases inv.flag_iff.mp hflag with h | h <;> rw [h] <;> decide
+    rw [h, inv.status_after hc, hf]
+
+/-- Stability over whole schedules: if some poll has returned `Ready(x)` in `s`, then in every later
+    state every poller's results are its results in `s` with only `Ready(x)`s put in front. -/
+theorem C12_stable_run {final : Status} {n : Nat} {x : Status} : ∀ (acts : List Act) {s s' : St} {q0 : Poller},
+    Reachable final n s → q0 ∈ s.pollers → .ready x ∈ q0.results → run s acts = some s' →
+    ∀ (p : Nat) (q q' : Poller), s.pollers[p]? = some q → s'.pollers[p]? = some q' →
+      ∃ k, q'.results = List.replicate k (.ready x) ++ q.results := by
+  intro acts
+  induction acts with
+  | nil =>
+    intro s s' q0 _ _ _ hrun p q q' hq hq'
+    simp only [run, Option.some.injEq] at hrun
+    subst hrun
+    rw [hq] at hq'; cases hq'
+    exact ⟨0, rfl⟩
+  | cons a rest ih =>
+    intro s s' q0 hr hq0 hres hrun p q q' hq hq'
+    simp only [run] at hrun
+    cases hs : step s a with
+    | none => simp [hs] at hrun
+    | some s1 =>
+      simp only [hs] at hrun
+      obtain ⟨hflag, hx⟩ := C12_ready_implies_flag hr hq0 hres
+      -- poller `p` in the intermediate state
+      have hlen := step_pollers_length hs
+      have hp1 : p < s1.pollers.length := by
+        rw [hlen]
+        rcases Nat.lt_or_ge p s.pollers.length with hl | hl
+        · exact hl
+        · rw [List.getElem?_eq_none hl] at hq; cases hq
+      obtain ⟨q1, hq1⟩ : ∃ q1, s1.pollers[p]? = some q1 := ⟨_, List.getElem?_eq_getElem hp1⟩
+      -- some poller of `s1` still has a `Ready(x)`
+      obtain ⟨i, hi⟩ := List.mem_iff_getElem?.mp hq0
+      have hi1 : i < s1.pollers.length := by
+        rw [hlen]
+        rcases Nat.lt_or_ge i s.pollers.length with hl | hl
+        · exact hl
+        · rw [List.getElem?_eq_none hl] at hi; cases hi
+      have hqi : s1.pollers[i]? = some s1.pollers[i] := List.getElem?_eq_getElem hi1
+      have hres1 : .ready x ∈ (s1.pollers[i]).results := by
+        rcases C12_stable hr hflag hs i q0 _ hi hqi with h | h <;> rw [h]
+        · exact hres
+        · exact List.mem_cons_of_mem _ hres
+      obtain ⟨k, hk⟩ := ih (hr.step hs) (List.mem_iff_getElem?.mpr ⟨i, hqi⟩) hres1 hrun p q1 q' hq1 hq'
+      rcases C12_stable hr hflag hs p q q1 hq hq1 with h | h
+      · exact ⟨k, by rw [hk, h]⟩
+      · refine ⟨k + 1, ?_⟩
+        rw [hk, h, hx, List.replicate_succ', List.append_assoc]
+        rfl
+
+/-! ### 3. `Pending` only before publication -/
+
+/-- A poll can return `Pending` only while the flag is unset — hence before the wake section has run, so
+    the waker it has just registered will be woken (see `C12_woken`) — and it has released the waker lock. -/
+theorem C12_pending_only_before_publication {final : Status} {n : Nat} {s s' : St} {p : Nat} {q q' : Poller}
+    (hr : Reachable final n s) (hs : step s (.loadFlag p) = some s')
+    (hq : s.pollers[p]? = some q) (hq' : s'.pollers[p]? = some q')
+    (hres : q'.results = .pending :: q.results) :
+    (s.cpc = .beforeStatus ∨ s.cpc = .beforeFlag) ∧ s.flag = false ∧ s.wakes = [] ∧ s'.lock = none := by
+  obtain ⟨inv, -, -⟩ := hr.inv
+  rcases step_results hs hq hq' with h | ⟨-, hff, hl, -⟩ | ⟨h, -, -⟩
+  · rw [h] at hres
+    exact absurd hres.symm (List.cons_ne_self _ _)
+  · have hnf : ¬ (s.cpc = .beforeWake ∨ s.cpc = .finished) := by
+      intro h; rw [inv.flag_iff.mpr h] at hff; cases hff
+    have hc : s.cpc = .beforeStatus ∨ s.cpc = .beforeFlag := by
+      cases hcpc : s.cpc <;> simp_all
+    refine ⟨hc, hff, inv.wakes_nil ?_, hl⟩
+    intro h; exact hnf (Or.inr h)
+  · cases h
+
+/-! ### 4. the most recent poller is woken, exactly once -/
+
+/-- At most one wake is ever issued, and only by the completed `done`. -/
+theorem C12_wake_once {final : Status} {n : Nat} {s : St} (hr : Reachable final n s) :
+    s.wakes.length ≤ 1 ∧ (s.wakes.length = 1 → s.cpc = .finished) := by
+  obtain ⟨inv, -, -⟩ := hr.inv
+  refine ⟨inv.wakes_le, fun h => ?_⟩
+  apply Classical.byContradiction
+  intro hne
+  rw [inv.wakes_nil hne] at h
+  cases h
+
+/-- The task that most recently polled before the wake section is woken: whatever happened before
+    (`pre`) and after (`post`), if `w` is the waker of the last registration in `pre`, `w` is in `wakes`. -/
+theorem C12_woken {final : Status} {n : Nat} {s : St} {pre post : List Act} {w : Nat}
+    (hrun : run (init final n) (pre ++ [Act.wake] ++ post) = some s)
+    (hlast : lastRegistered pre = some w) : w ∈ s.wakes := by
+  obtain ⟨m2, h12, hpost⟩ := (run_append _ _).mp hrun
+  obtain ⟨m1, hpre, hwake⟩ := (run_snoc _ _).mp h12
+  have hslot := run_slot pre _ _ hpre
+  rw [hlast] at hslot
+  refine run_wakes_mem post m2 s hpost ?_
+  simp only [step] at hwake
+  split at hwake
+  · simp only [Option.some.injEq] at hwake
+    subst hwake
+    simp only [hslot]
+    exact List.mem_cons_self
+  · cases hwake
+
+/-- ... and it is the only one woken. -/
+theorem C12_woken_exactly {final : Status} {n : Nat} {s : St} {pre post : List Act} {w : Nat}
+    (hrun : run (init final n) (pre ++ [Act.wake] ++ post) = some s)
+    (hlast : lastRegistered pre = some w) : s.wakes = [w] := by
+  have hmem := C12_woken hrun hlast
+  have hlen := (C12_wake_once ⟨_, hrun⟩).1
+  cases hw : s.wakes with
+  | nil => rw [hw] at hmem; cases hmem
+  | cons a rest =>
+    rw [hw] at hmem hlen
+    cases rest with
+    | nil =>
+      rcases List.mem_cons.mp hmem with h | h
+      · rw [h]
+      · cases h
+    | cons b rest' => simp only [List.length_cons] at hlen; omega
+
+/-- If nobody polled before the wake section, nobody is woken (and nobody needs to be: every later poll
+    sees the flag, `C12_stable`). -/
+theorem C12_no_spurious_wake {final : Status} {n : Nat} {s : St} {pre post : List Act}
+    (hrun : run (init final n) (pre ++ [Act.wake] ++ post) = some s)
+    (hlast : lastRegistered pre = none) : s.wakes = [] := by
+  obtain ⟨m2, h12, hpost⟩ := (run_append _ _).mp hrun
+  obtain ⟨m1, hpre, hwake⟩ := (run_snoc _ _).mp h12
+  have hslot := run_slot pre _ _ hpre
+  rw [hlast] at hslot
+  have hm1 : m1.wakes = [] := by
+    obtain ⟨inv, -, -⟩ := (show Reachable final n m1 from ⟨pre, hpre⟩).inv
+    simp only [step] at hwake
+    split at hwake
+    · rename_i hc; exact inv.wakes_nil (by rw [hc.1]; decide)
+    · cases hwake
+  have hm2 : m2.wakes = [] ∧ m2.cpc = .finished := by
+    simp only [step] at hwake
+    split at hwake
+    · simp only [Option.some.injEq] at hwake
+      subst hwake
+      refine ⟨?_, rfl⟩
+      simp only [hslot]
+      exact hm1
+    · cases hwake
+  -- after `finished` no step changes `wakes`
+  have hkeep : ∀ (acts : List Act) (t t' : St), (t.wakes = [] ∧ t.cpc = .finished) → run t acts = some t' →
+      (t'.wakes = [] ∧ t'.cpc = .finished) := by
+    refine run_induction (P := fun t => t.wakes = [] ∧ t.cpc = .finished) ?_
+    rintro t a t' ⟨hw, hc⟩ hs
+    rcases step_cases hs with ⟨-, h, rfl⟩ | ⟨-, h, rfl⟩ | ⟨-, h, -, rfl⟩ | ⟨p, w, q, -, -, -, -, rfl⟩ |
+      ⟨p, q, -, -, -, -, rfl⟩ | ⟨p, q, -, -, -, -, rfl⟩ | ⟨p, q, -, -, -, rfl⟩ <;>
+      first | exact ⟨hw, hc⟩ | (rw [hc] at h; cases h)
+  exact (hkeep post m2 s hm2 hpost).1
+
+/-! ### 5. effects before resolution -/
+
+/-- When a poll has resolved, `done` has already stored the status and published the flag.  (`done` is
+    called by the worker only after the command's effects; that call order is outside this slice.) -/
+theorem C12_effect_before_resolution {final : Status} {n : Nat} {s : St} {q : Poller} {x : Status}
+    (hr : Reachable final n s) (hq : q ∈ s.pollers) (hres : .ready x ∈ q.results) :
+    s.status = final ∧ s.cpc ≠ .beforeStatus ∧ s.cpc ≠ .beforeFlag := by
+  obtain ⟨inv, hf, -⟩ := hr.inv
+  obtain ⟨hflag, -⟩ := C12_ready_implies_flag hr hq hres
+  have hc := inv.flag_iff.mp hflag
+  have h1 : s.cpc ≠ .beforeStatus := by rcases hc with h | h <;> rw [h] <;> decide
+  have h2 : s.cpc ≠ .beforeFlag := by rcases hc with h | h <;> rw [h] <;> decide
+  exact ⟨by rw [inv.status_after h1, hf], h1, h2⟩
+
+/-! ### 6. progress -/
+
+/-- Whoever holds the waker lock can always take a step, and is back to `idle` with the lock released after
+    at most two of its own steps (`loadFlag`, then possibly `finishPoll`) — the critical section is finite
+    and never waits for anybody. -/
+theorem C12_poll_finishes {final : Status} {n : Nat} {s : St} {p : Nat}
+    (hr : Reachable final n s) (hl : s.lock = some p) :
+    ((step s (.loadFlag p)).isSome ∨ (step s (.finishPoll p)).isSome) ∧
+    ∃ acts s' q', acts.length ≤ 2 ∧ (∀ a ∈ acts, a = .loadFlag p ∨ a = .finishPoll p) ∧
+      run s acts = some s' ∧ s'.lock = none ∧ s'.pollers[p]? = some q' ∧ q'.pc = .idle := by
+  obtain ⟨inv, -, -⟩ := hr.inv
+  obtain ⟨q, hq, hpc⟩ := inv.lock_holder p hl
+  -- the last step of a poll
+  have fin : ∀ (t : St) (qt : Poller), t.pollers[p]? = some qt → qt.pc = .sawDone →
+      ∃ t' q', step t (.finishPoll p) = some t' ∧ t'.lock = none ∧ t'.pollers[p]? = some q' ∧ q'.pc = .idle := by
+    intro t qt ht hpt
+    refine ⟨setPoller { t with lock := none } p { qt with pc := .idle, results := .ready t.status :: qt.results },
+      { qt with pc := .idle, results := .ready t.status :: qt.results },
+      by simp only [step, ht, hpt, if_true], rfl, ?_, rfl⟩
+    · rw [getElem?_setPoller (s := { t with lock := none }) ht]; simp only [if_true]
+  rcases hpc with hpc | hpc
+  · cases hflag : s.flag with
+    | false =>
+      have hs : step s (.loadFlag p) = some (setPoller { s with lock := none } p
+          { q with pc := .idle, results := .pending :: q.results }) := by
+        simp [step, hq, hpc, hflag]
+      refine ⟨Or.inl (by rw [hs]; rfl), [.loadFlag p],
+        setPoller { s with lock := none } p { q with pc := .idle, results := .pending :: q.results },
+        { q with pc := .idle, results := .pending :: q.results }, by simp, by simp, by simp only [run, hs], rfl, ?_, rfl⟩
+      rw [getElem?_setPoller (s := { s with lock := none }) hq]; simp only [if_true]
+    | true =>
+      have hs : step s (.loadFlag p) = some (setPoller s p { q with pc := .sawDone }) := by
+        simp [step, hq, hpc, hflag]
+      have h1 : (setPoller s p { q with pc := .sawDone }).pollers[p]? = some { q with pc := .sawDone } := by
+        rw [getElem?_setPoller hq]; simp only [if_true]
+      obtain ⟨t', q', ht', hl', hq', hidle⟩ := fin _ _ h1 rfl
+      refine ⟨Or.inl (by rw [hs]; rfl), [.loadFlag p, .finishPoll p], t', q', by simp, by simp,
+        by simp only [run, hs, ht'], hl', hq', hidle⟩
+  · obtain ⟨t', q', ht', hl', hq', hidle⟩ := fin s q hq hpc
+    exact ⟨Or.inr (by rw [ht']; rfl), [.finishPoll p], t', q', by simp, by simp, by simp only [run, ht'], hl', hq', hidle⟩
+
+/-- Until `done` has finished, the completer can advance, or the lock holder can (and then the completer
+    can, `C12_poll_finishes`): nobody waits for ever. -/
+theorem C12_progress {final : Status} {n : Nat} {s : St} (hr : Reachable final n s) (hc : s.cpc ≠ .finished) :
+    (∃ a, (a = .setStatus ∨ a = .setFlag ∨ a = .wake) ∧ (step s a).isSome) ∨
+    (∃ p, s.lock = some p ∧ ((step s (.loadFlag p)).isSome ∨ (step s (.finishPoll p)).isSome)) := by
+  cases hcpc : s.cpc with
+  | beforeStatus => exact Or.inl ⟨.setStatus, Or.inl rfl, by simp [step, hcpc]⟩
+  | beforeFlag => exact Or.inl ⟨.setFlag, Or.inr (Or.inl rfl), by simp [step, hcpc]⟩
+  | finished => exact absurd hcpc hc
+  | beforeWake =>
+    cases hl : s.lock with
+    | none => exact Or.inl ⟨.wake, Or.inr (Or.inr rfl), by simp [step, hcpc, hl]⟩
+    | some p => exact Or.inr ⟨p, rfl, (C12_poll_finishes hr hl).1⟩
+
+/-- The only thing the wake section ever waits for is the (finite) critical section of a poll. -/
+theorem C12_wake_enabled_iff {final : Status} {n : Nat} {s : St} (_hr : Reachable final n s) :
+    (step s .wake).isSome ↔ s.cpc = .beforeWake ∧ s.lock = none := by
+  simp only [step]
+  split <;> simp_all
+
+/-! ### 7. sensitivity: the order of the two stores matters -/
+
+/-- `step` with the completer's first two stores swapped — flag first, status second — which is the order
+    `done` had before it was repaired.  Every other action is that of `step`. -/
+def stepFlagFirst (s : St) : Act → Option St
+  | .setStatus => if s.cpc = .beforeStatus then some { s with flag := true, cpc := .beforeFlag } else none
+  | .setFlag => if s.cpc = .beforeFlag then some { s with status := s.final, cpc := .beforeWake } else none
+  | .wake =>
+    if s.cpc = .beforeWake ∧ s.lock = none then
+      some { s with cpc := .finished, wakes := (match s.slot with | some w => w :: s.wakes | none => s.wakes) }
+    else none
+  | .lockRegister p w =>
+    match s.pollers[p]? with
+    | some q =>
+      if q.pc = .idle ∧ s.lock = none then
+        some (setPoller { s with lock := some p, slot := some w } p { q with pc := .registered, waker := w })
+      else none
+    | none => none
+  | .loadFlag p =>
+    match s.pollers[p]? with
+    | some q =>
+      if q.pc = .registered then
+        if s.flag then some (setPoller s p { q with pc := .sawDone })
+        else some (setPoller { s with lock := none } p { q with pc := .idle, results := .pending :: q.results })
+      else none
+    | none => none
+  | .finishPoll p =>
+    match s.pollers[p]? with
+    | some q =>
+      if q.pc = .sawDone then
+        some (setPoller { s with lock := none } p { q with pc := .idle, results := .ready s.status :: q.results })
+      else none
+    | none => none
+
+def runFlagFirst (s : St) : List Act → Option St
+  | [] => some s
+  | a :: rest => match stepFlagFirst s a with
+    | some s' => runFlagFirst s' rest
+    | none => none
+
+/-- the copy differs from `step` in the completer's two stores only -/
+theorem stepFlagFirst_eq_step (s : St) (a : Act) (h1 : a ≠ .setStatus) (h2 : a ≠ .setFlag) :
+    stepFlagFirst s a = step s a := by
+  cases a <;> first | rfl | exact absurd rfl h1 | exact absurd rfl h2
+
+/-- Flag first: a poll squeezed between the two stores resolves to `Ready(Pending)` although the command
+    was accepted — the acknowledgement resolves to something that is not the command's outcome. -/
+example :
+    (runFlagFirst (init .accepted 1) [.setStatus, .lockRegister 0 7, .loadFlag 0, .finishPoll 0]).map
+      (fun s => s.pollers.map (·.results)) = some [[.ready .pending]] := by decide
+
+/-- So `C12_no_pending` (and with it `C12_real_outcome`, `C12_stable`, `C12_effect_before_resolution`) is
+    false of the flag-first order ... -/
+example : ∃ acts s q, runFlagFirst (init .accepted 1) acts = some s ∧ q ∈ s.pollers ∧
+    .ready .pending ∈ q.results :=
+  ⟨[.setStatus, .lockRegister 0 7, .loadFlag 0, .finishPoll 0], _, { waker := 7, results := [.ready .pending] }, rfl,
+    by decide, by decide⟩
+
+/-- ... while in the repaired order the same poll, at the same place, returns `Pending` and cannot finish
+    with a `Ready` at all. -/
+example :
+    (run (init .accepted 1) [.setStatus, .lockRegister 0 7, .loadFlag 0]).map
+      (fun s => s.pollers.map (·.results)) = some [[.pending]] ∧
+    run (init .accepted 1) [.setStatus, .lockRegister 0 7, .loadFlag 0, .finishPoll 0] = none := by decide
+
+/-! ### 8. non-vacuity -/
+
+/-- two pollers; poller 0 polls `Pending` with waker 5, poller 1 polls `Pending` with waker 6 after the
+    status is stored but before the flag, poller 0 comes back with a NEW waker 8, sees the flag and resolves;
+    `done` wakes 8 — the last registered waker — once; poller 1 then polls (unwoken) and resolves too. -/
+def demo : List Act :=
+  [.lockRegister 0 5, .loadFlag 0, .setStatus, .lockRegister 1 6, .loadFlag 1, .lockRegister 0 8, .setFlag,
+   .loadFlag 0, .finishPoll 0, .wake, .lockRegister 1 6, .loadFlag 1, .finishPoll 1]
+
+example : run (init .accepted 2) demo = some
+    { final := .accepted, status := .accepted, flag := true, slot := some 6, lock := none, cpc := .finished,
+      pollers := [{ pc := .idle, waker := 8, results := [.ready .accepted, .pending] },
+                  { pc := .idle, waker := 6, results := [.ready .accepted, .pending] }],
+      wakes := [8] } := by decide
+
+example : Reachable .accepted 2
+    { final := .accepted, status := .accepted, flag := true, slot := some 6, lock := none, cpc := .finished,
+      pollers := [{ pc := .idle, waker := 8, results := [.ready .accepted, .pending] },
+                  { pc := .idle, waker := 6, results := [.ready .accepted, .pending] }],
+      wakes := [8] } := ⟨demo, by decide⟩
+
+/-- the premises of `C12_woken` are met by that run -/
+example : demo = [.lockRegister 0 5, .loadFlag 0, .setStatus, .lockRegister 1 6, .loadFlag 1, .lockRegister 0 8,
+      .setFlag, .loadFlag 0, .finishPoll 0] ++ [Act.wake] ++ [.lockRegister 1 6, .loadFlag 1, .finishPoll 1] ∧
+    lastRegistered [.lockRegister 0 5, .loadFlag 0, .setStatus, .lockRegister 1 6, .loadFlag 1,
+      .lockRegister 0 8, .setFlag, .loadFlag 0, .finishPoll 0] = some 8 ∧
+    (run (init .accepted 2) demo).map (·.wakes) = some [8] := by decide
+
+/-- the wake section waits for a poll in progress: while poller 0 holds the waker lock `wake` is not
+    enabled, the poller's own steps are, and afterwards `wake` is -/
+example :
+    (run (init .shuttingDown 1) [.setStatus, .setFlag, .lockRegister 0 3, .wake]) = none ∧
+    (run (init .shuttingDown 1) [.setStatus, .setFlag, .lockRegister 0 3, .loadFlag 0, .finishPoll 0, .wake]).map
+      (fun s => (s.wakes, s.pollers.map (·.results))) = some ([3], [[.ready .shuttingDown]]) := by decide
+
+/-- mutual exclusion is really exercised: a second poller cannot enter while the first is inside -/
+example : run (init .accepted 2) [.lockRegister 0 1, .lockRegister 1 2] = none := by decide
+
+end AckB
 end Cached
